@@ -32,10 +32,34 @@ def build_scenarios(tier, chk, per_hist_classes=2, budget=None):
     return scns, len(names)
 
 
+def suite_traces(tier, tag):
+    """run (part of) the repository's own test suite under the harness-side recorder (REAMBERPY_VERIF=1) and
+    return the timed-list trace records it logged"""
+    import json
+    import os
+    import subprocess
+    from harness.common import OUT, REPO, VERIF
+    out = OUT / f"suite_{tag}.ndjson"
+    OUT.mkdir(exist_ok=True)
+    if out.exists():
+        out.unlink()
+    tests = ["tests/unit_tests/base", "tests/unit_tests/osu", "tests/unit_tests/qua", "tests/algorithm_tests/generate",
+             "tests/algorithm_tests/utils", "tests/algorithm_tests/analysis"] if tier == "quick" else ["tests"]
+    env = dict(os.environ, REAMBERPY_VERIF="1", REAMBERPY_VERIF_TRACE=str(out), PYTHONPATH=str(VERIF))
+    subprocess.run(["/venv/bin/python", "-m", "pytest", "-q", "-p", "no:cacheprovider", "-p", "harness.recorder", "--timeout=900",
+                    *tests], cwd=REPO, env=env, capture_output=True, text=True, timeout=3000)
+    if not out.exists():
+        return []
+    return [json.loads(ln) for ln in out.read_text().splitlines() if ln.strip()]
+
+
 def run(tier: str) -> int:
     chk = Check("C16", tier)
     scns, ncls = build_scenarios(tier, chk)
     recs = pmap(drv.exec_hist, scns)
+    srecs = suite_traces(tier, "c16")
+    chk.extra["records_from_repository_test_suite"] = len(srecs)
+    recs += srecs
     rejects, consumed, wall = validate_traces("ListsTrace", "ListsTrace", recs, tag=f"c16-{tier}",
                                               env={"VERIF_PROP": "C16"})
     chk.add_traces(recs, rejects)
@@ -45,7 +69,7 @@ def run(tier: str) -> int:
     chk.rule = (f"TLC enumerates every history (row lists over 3-4 offsets with duplicates x shaping ops sorted/append/after/"
                 f"before/slice/deepcopy up to Depth) and emits it; each history is replayed on list classes round-robin over all "
                 f"{ncls} TimedList subclasses, and in every reached state a seeded sample of the operation catalogue is probed "
-                f"(full catalogue on three base lists for every class). non-trivial = distinct (class.op, non-empty input, args)")
+                f"(full catalogue on three base lists for every class); plus the timed-list calls the repository's own tests make, recorded by harness/recorder.py. non-trivial = distinct (class.op, non-empty input, args)")
     seen = set()
     for x in recs:
         if x["op"] not in seen and x["pre"] and len(chk.samples) < 8:
